@@ -72,6 +72,8 @@ MCListOps ==
              [m |-> "append", v |-> DictV(<<>>)], [m |-> "append", v |-> IntV(1)],
              [m |-> "append", v |-> D1(<<"z","z">>, IntV(1))], [m |-> "setitem", i |-> 0, v |-> D1(<<"p">>, IntV(7))],
              [m |-> "setitem", i |-> 0, v |-> D1(<<"p">>, IntV(70))],
+             [m |-> "item_set", i |-> 0, k |-> "p", v |-> IntV(8)], [m |-> "item_set", i |-> 0, k |-> "p", v |-> IntV(0)],
+             [m |-> "item_set", i |-> 0, k |-> "q", v |-> s(<<"n">>)],
              [m |-> "insert", i |-> 0, v |-> D2(<<"p">>, IntV(4), <<"q">>, s(<<"w">>))], [m |-> "pop"]}]
 MCDictOps ==
     [pk \in {<< <<>>, "d">>} |->
